@@ -132,6 +132,10 @@ func checkProgram(src string) {
 	if ru.Err != "" {
 		res.Dist("runtime-error-programs")
 	}
+	if ru.MemGuard || ro.MemGuard {
+		res.Dist("memory-guard-aborted")
+		res.Sample(map[string]interface{}{"stream": "twin", "memory_guard": true, "source": src}, 6)
+	}
 	if ru.TimedOut || ro.TimedOut {
 		res.Dist("timeout")
 		return
